@@ -143,6 +143,8 @@ func (c *specCtx) evalInt(x Expr) *Term {
 		return i.T
 	case VTime:
 		return i.T
+	case VOpaque: // value of a call that did not happen on this path: arbitrary
+		return i.Id
 	}
 	c.fail("integer expected, got %T", v)
 	return nil
@@ -957,6 +959,8 @@ func (c *specCtx) evalCall(n *ECall) Val {
 		return VInt{iv.Data}
 	case "itoa": // the string strconv.Itoa(x)
 		return itoaString(c.evalInt(n.Args[0]))
+	case "callsTotal": // number of calls logged so far (positions are 0 .. callsTotal()-1)
+		return VInt{Num(int64(len(c.st.calls)))}
 	case "callFn": // callFn(f, n): the function value invoked by the n-th call logged under f (opaque calls)
 		name := n.Args[0].(*EIdent).Name
 		nth := c.evalInt(n.Args[1])
